@@ -48,6 +48,21 @@ func pick3(r *RNG) (int, int, int) {
 	return baseNums[r.Intn(len(baseNums))], baseNums[r.Intn(len(baseNums))], baseNums[r.Intn(len(baseNums))]
 }
 
+func pickN(r *RNG, n int) []int {
+	c := make([]int, n)
+	for i := range c {
+		c[i] = baseNums[r.Intn(len(baseNums))]
+	}
+	return c
+}
+
+// bumpDrop: drop the last component and increment the new last one (gem ~>, pypi ~=)
+func bumpDrop(c []int) []int {
+	h := append([]int{}, c[:len(c)-1]...)
+	h[len(h)-1]++
+	return h
+}
+
 // caretHi: upper bound of a SemVer-style caret on X.Y.Z
 func caretHi(x, y, z int) (int, int, int) {
 	if x > 0 {
@@ -243,6 +258,12 @@ var shEcos = map[string]*shEco{
 			w := baseNums[r.Intn(len(baseNums))]
 			return shCase{"~>X.Y.Z.W", "~>" + dots("", x, y, z, w), dots("", x, y, z, w), dots("", x, y, z+1), true, false, false}
 		},
+		// bases of five to seven segments: "drop the last segment, bump the new last one" holds at
+		// every length
+		func(r *RNG) shCase {
+			c := pickN(r, r.Range(5, 7))
+			return shCase{"~>X.Y.Z.W.V...", "~>" + dots("", c...), dots("", c...), dots("", bumpDrop(c)...), true, false, false}
+		},
 	}, Pre: []string{".rc1", "-alpha", ".pre"}, Arity: []int{1, 2, 3, 4}, HiPreSkip: true},
 	"hex": {Gen: []func(r *RNG) shCase{
 		func(r *RNG) shCase {
@@ -296,6 +317,23 @@ var shEcos = map[string]*shEco{
 		func(r *RNG) shCase {
 			x, _, _ := pick3(r)
 			return shCase{"!=X.*", "!=" + dots("", x) + ".*", dots("", x), dots("", x+1), true, false, true}
+		},
+		// long release tuples: the same rules at five and six segments
+		func(r *RNG) shCase {
+			c := pickN(r, r.Range(5, 6))
+			return shCase{"~=X.Y.Z.W.V...", "~=" + dots("", c...), dots("", c...), dots("", append(bumpDrop(c), 0)...), true, false, false}
+		},
+		func(r *RNG) shCase {
+			c := pickN(r, r.Range(4, 6))
+			hi := append([]int{}, c...)
+			hi[len(hi)-1]++
+			return shCase{"==X.Y.Z.W....*", "==" + dots("", c...) + ".*", dots("", c...), dots("", hi...), true, false, false}
+		},
+		func(r *RNG) shCase {
+			c := pickN(r, r.Range(3, 5))
+			hi := append([]int{}, c...)
+			hi[len(hi)-1]++
+			return shCase{"!=X.Y.Z....*", "!=" + dots("", c...) + ".*", dots("", c...), dots("", hi...), true, false, true}
 		},
 	}, Pre: []string{".post1", ".post2"}, Arity: []int{1, 2, 3, 4},
 		ProbeOK: func(s string, v any) bool { return !pypiIsPre(v) }},
@@ -416,6 +454,18 @@ func checkC05(ctx *Ctx) {
 				if c.Lo != "" {
 					// neighbours of the base in text: one byte shorter, one byte longer, one more identifier
 					xs = append(xs, c.Lo[:len(c.Lo)-1], c.Lo+"w", c.Lo+".9", c.Lo[:len(c.Lo)-1]+".9", c.Lo+"0")
+				}
+				if c.Hi != "" {
+					xs = append(xs, c.Hi+".0", c.Hi+".9")
+				}
+				// versions sharing a numeric prefix with the numbers written in the range, at
+				// shorter and longer arities (c06.go)
+				if rel := prefixRelatives(c.Rng, se.Prefix, se.Pre); len(rel) > 0 {
+					for _, k := range r.Perm(len(rel)) {
+						if k < 24 {
+							xs = append(xs, rel[k])
+						}
+					}
 				}
 				for _, extra := range xs {
 					if extra != "" {
